@@ -495,3 +495,70 @@ by rewrite horner_ev_Bmul Hb mulr0.
 Qed.
 
 End AnnRoots2.
+
+(* ---------------------------------------------------------------- annihilator of a power *)
+Definition Bpow (n : nat) : {poly {poly Z}} := 'Y - 'X^n.
+
+Lemma BP_nseq_cat k l : BP (nseq k [::] ++ l) = BP l * 'X^k.
+Proof.
+elim: k => [|k IH]; first by rewrite expr0 mulr1.
+by rewrite /= BP_cons IH /= polyC0 add0r exprSr mulrA.
+Qed.
+
+Lemma BP_pow_list n : (0 < n)%N ->
+  BP ([:: [:: Z0; Zpos xH]] ++ List.repeat [::] (Nat.pred n) ++ [:: [:: Zneg xH]]) = Bpow n.
+Proof.
+case: n => // n _; rewrite /= List_repeat_nseq BP_cons BP_nseq_cat !BP_cons BP_nil mul0r addr0.
+by rewrite Poly_X Poly_N1 polyCN mulNr mul1r mulNr -exprSr.
+Qed.
+
+Lemma size_Bpow n : (0 < n)%N -> size (Bpow n) = n.+1.
+Proof.
+move=> Hn; rewrite /Bpow -opprB size_opp size_addl ?size_polyXn // size_opp size_polyC.
+by case: eqP.
+Qed.
+
+Lemma lead_swap_Bpow n : lead_coef (swapXY (Bpow n)) = 1%:P.
+Proof.
+rewrite /Bpow rmorphB rmorphX /= swapXY_X swapXY_Y -rmorphX /= lead_coefXsubC.
+by [].
+Qed.
+
+Lemma ann_pow_res (p : seq Z) n : Poly p != 0 -> (0 < n)%N ->
+  exists k : nat, Poly (ann_pow p n) = (-1) ^+ k * resultant (Poly p)^:P (Bpow n).
+Proof.
+move=> p0 Hn; rewrite /ann_pow.
+set l := (_ ++ _)%list.
+have El : BP l = Bpow n by exact: BP_pow_list.
+have nzB : BP l != 0 by rewrite El -size_poly_eq0 size_Bpow.
+rewrite (bires_resultant (last_bp_of_upoly p0) (last_bp_trim nzB)) BP_bp_trim El BP_bp_of_upoly.
+by eexists.
+Qed.
+
+Theorem ann_pow_neq0 (p : seq Z) n : Poly p != 0 -> (0 < n)%N -> Poly (ann_pow p n) != 0.
+Proof.
+move=> p0 Hn; have [k ->] := ann_pow_res p0 Hn.
+rewrite mulf_neq0 ?signr_eq0 //.
+apply: (@resultant_constP_neq0 _ _ _ 1) => //; exact: lead_swap_Bpow.
+Qed.
+
+Section AnnRoots3.
+Variable R : rcfType.
+Local Notation zr := (@zr R).
+Local Notation pr := (@pr R).
+Local Notation zrm := (zr_rmorphism R).
+Local Notation ev s := (horner_eval s \o map_poly zrm).
+
+Theorem ann_pow_root (p : seq Z) n (a : R) : Poly p != 0 -> (0 < n)%N ->
+  root (pr p) a -> root (pr (ann_pow p n)) (a ^+ n).
+Proof.
+move=> p0 Hn ra; have [k Ek] := ann_pow_res p0 Hn.
+apply: pr_sign_res Ek _; apply: (@resultant_root _ zrm _ _ a).
+- exact: root_size_Poly ra.
+- by rewrite size_Bpow.
+- exact/eqP.
+rewrite /Bpow rmorphB rmorphX /= map_polyC map_polyX [X in X%:P]ev_X.
+by rewrite hornerD hornerN hornerC hornerXn subrr.
+Qed.
+
+End AnnRoots3.
